@@ -688,6 +688,33 @@ func secInit(r *rng, thorough bool) {
 				}
 			}
 		}
+		// NewServer without a Conn: the server opens its own socket (udp, port chosen by the system) and must then
+		// treat it exactly like a supplied one; the local address is read back from the server
+		if i%10 == 1 && validPub {
+			c3 := &dht.ServerConfig{NodeId: krpc.ID(nodeID), PublicIP: secCpIP(pub), NoSecurity: nosec}
+			func() {
+				defer func() {
+					if p := recover(); p != nil {
+						emit("serverid %s => panic", args(nodeID, false))
+					}
+				}()
+				s3, err := dht.NewServer(c3)
+				if err != nil {
+					emit("# NewServer without Conn: %v", err)
+					return
+				}
+				la := s3.Addr()
+				sid := [20]byte(s3.ID())
+				s3.Close()
+				a3 := fmt.Sprintf("%s 1 %s %s %s %d", hx(nodeID[:]), hx([]byte(la.Network())), hx([]byte(la.String())), secPubTok(pub), b2i(nosec))
+				emit("serverid %s => %s", a3, hx(sid[:]))
+				if nodeID == ([20]byte{}) {
+					if ok, p4 := secTryIsSecure(sid, secCp(pub)); p4 || !ok {
+						secOracle("self-id-not-verified", fmt.Sprintf("NewServer-own-socket:pubip=%s:nosec=%d", hx(pub), b2i(nosec)), "id=%s local=%s/%s panic=%v", hx(sid[:]), la.Network(), la, p4)
+					}
+				}
+			}()
+		}
 	}
 }
 
@@ -794,6 +821,39 @@ func secConcurrent(r *rng, thorough bool) {
 	emit("# security concurrent: %d pairs, %d goroutines x %d calls, differing=%d", len(ps), workers, iters, len(bad))
 }
 
+// Results must not depend on what was asked before: pairs of addresses of the two families that agree on every
+// bit both masks keep (an IPv4 address a.b.c.d with few bits set and the IPv6 address a.b.c.d:0000:... ), the same
+// seed, asked one right after the other in both orders and twice.
+func secTwins(r *rng, thorough bool) {
+	n := 48
+	if thorough {
+		n = 2000
+	}
+	for i := 0; i < n; i++ {
+		v4 := []byte{byte(r.intn(2)), byte(r.intn(4)), byte(r.intn(8)), byte(r.intn(16))}
+		if i%4 == 3 {
+			v4 = r.bytes(4) // unrelated prefixes as well
+		}
+		v6 := append(append(secCp(v4), 0, 0, 0, 0), r.bytes(8)...)
+		if i%3 == 2 {
+			copy(v6[4:8], r.bytes(4)) // differs in the second half of the hashed prefix
+		}
+		id := secRandID(r)
+		a, b := v4, v6
+		if i%2 == 1 {
+			a, b = v6, v4
+		}
+		for rep := 0; rep < 2; rep++ {
+			sa := secLineSecure(id, a, r)
+			sb := secLineSecure(id, b, r)
+			secLineIsSecure(sa, a)
+			secLineIsSecure(sa, b)
+			secLineIsSecure(sb, b)
+			secLineIsSecure(sb, a)
+		}
+	}
+}
+
 func securityEngine(seed uint64, tier string, _ []string) {
 	r := &rng{s: seed}
 	thorough := tier == "thorough"
@@ -804,4 +864,5 @@ func securityEngine(seed uint64, tier string, _ []string) {
 	secInit(r.sub(5), thorough)
 	secSweepV4(r.sub(6), thorough)
 	secConcurrent(r.sub(7), thorough)
+	secTwins(r.sub(8), thorough)
 }
